@@ -146,7 +146,9 @@ func tokenize(expr string) ([]string, error) {
 		// Handle multi-character operators
 		if i+1 < len(expr) {
 			twoChar := expr[i : i+2]
-			if isOperator(twoChar) {
+			// symbolic operators only: the word operators OR / IS are read as whole words below,
+			// so that identifiers beginning with them (orders, isActive) stay in one piece
+			if isOperator(twoChar) && !isLetter(expr[i]) {
 				tokens = append(tokens, twoChar)
 				i += 2
 				continue
